@@ -766,6 +766,14 @@ def value_getattr(interp, obj, name):
         if name == "__name__":
             return obj.__name__
         raise PyRaise(AttributeError(name))
+    from .values import SymExcClass
+
+    if isinstance(obj, SymExcClass):
+        if name in ("__name__", "__qualname__"):
+            return SU(z3.Const(f"{obj.name}.__name__", U), str)
+    if isinstance(obj, SymExc):
+        if name == "args":
+            return (Opaque(f"{obj.cls.name}.args"),)
     if isinstance(obj, SU):
         return BoundMethod(_SUMethod(name), obj)
     if isinstance(obj, GenObj):
@@ -1362,6 +1370,20 @@ def _bool(interp, args, kwargs):
     if not args:
         return False
     return interp.truth(args[0])
+
+
+@model(builtins.type)
+def _type(interp, args, kwargs):
+    if len(args) == 1:
+        v = interp.resolve(args[0])
+        if isinstance(v, SymExc):
+            return v.cls
+        if isinstance(v, Obj):
+            return v.cls
+        if isinstance(v, Value):
+            raise OutsideSubset(f"type({v!r})")
+        return type(v)
+    return interp.native(type, args, kwargs)
 
 
 @model(builtins.set)
